@@ -145,8 +145,10 @@ def judge(r, kind, ivs, probes, cnt):
         it = iter(m)
         part = observe(lambda: list(itertools.islice(it, 1)))
         got2 = observe(list, m)
-        cnt["ops"] += 2
-        if got2 != ("ok", exp_items) or part != ("ok", exp_items[:1]):
+        rest = observe(list, it)            # the first iterator continues where IT stopped
+        cnt["ops"] += 3
+        if got2 != ("ok", exp_items) or part != ("ok", exp_items[:1]) or rest != ("ok", exp_items[1:]):
+            part = (part, "continued after the full iteration", rest)
             r.violation(dict(base, op="iter", kind="value-mismatch", when="repeated-iteration"),
                         "%s of ImmutIntervalMap(%r): first item %r, then list(m) -> %r, expected %r" % (
                             label, mapping, part, got2, exp_items),
